@@ -9,6 +9,8 @@ verus! {
 
 global size_of usize == 8;
 
+//@INCLUDE prelude/std_extra.rs
+
 // ------------------------------------------------------------------ the documented address syntax (specification)
 pub use axioms::{is_ip_text, is_cidr_text, denoted_net, denoted_ip, host_net};
 
